@@ -154,81 +154,7 @@ def gen_value(t, depth, budget):
 # ------------------------------------------------------------------------------------
 # oracle
 # ------------------------------------------------------------------------------------
-def match(m, r, quirks, path, out):
-    """Append (path, kind, detail, known-sig or None) for every mismatch of real r against model m."""
-    if m is None:
-        if r is not None:
-            out.append((path, "null", "expected None, got %r" % (r,), None))
-    elif isinstance(m, bool):
-        if r is not m:
-            out.append((path, "bool", "expected %r, got %r" % (m, r), None))
-    elif isinstance(m, int):
-        if type(r) is not int or r != m:
-            out.append((path, "int", "expected %r, got %r" % (m, r), None))
-    elif isinstance(m, Real):
-        if type(r) is not float or r != m.value():
-            out.append((path, "real", "expected float(%s), got %r" % (m.text, r), None))
-    elif isinstance(m, Name):
-        try:
-            want = m.b.decode("utf-8")
-        except UnicodeDecodeError:
-            want = m.b
-        if not isinstance(r, PSLiteral) or r.name != want or type(r.name) is not type(want):
-            out.append((path, "name", "expected /%r, got %r" % (want, r), None))
-        elif r is not LIT(want):
-            out.append((path, "name-not-interned", "%r" % (r,), None))
-    elif isinstance(m, Str):
-        if type(r) is not bytes or r != m.b:
-            q = quirks.get(id(m))
-            if q is not None and r == q[1]:
-                out.append((path, "string", "expected %r, got %r" % (m.b, r), q[0]))
-            else:
-                out.append((path, "string", "expected %r, got %r" % (m.b, r), None))
-    elif isinstance(m, Ref):
-        if not isinstance(r, PDFObjRef) or r.objid != m.num:
-            out.append((path, "ref", "expected %r, got %r" % (m, r), None))
-    elif isinstance(m, list):
-        if type(r) is not list or len(r) != len(m):
-            out.append((path, "array", "expected %d items, got %r" % (len(m), r), None))
-        else:
-            for i, (a, b) in enumerate(zip(m, r)):
-                match(a, b, quirks, path + "[%d]" % i, out)
-    elif isinstance(m, dict):
-        want = {k.decode("utf-8"): v for k, v in m.items() if v is not None}
-        if type(r) is not dict or set(r) != set(want):
-            out.append((path, "dict", "expected keys %r, got %r" % (sorted(want), r), None))
-        else:
-            for k in want:
-                match(want[k], r[k], quirks, path + "/" + k, out)
-    else:
-        raise AssertionError("model kind %r" % (m,))
-
-
-def canon(r):
-    """Hashable, comparable rendering of a pdfminer value (for cross-schedule identity)."""
-    if isinstance(r, PSLiteral):
-        return ("L", r.name)
-    if isinstance(r, PSKeyword):
-        return ("K", r.name)
-    if isinstance(r, PDFObjRef):
-        return ("R", r.objid)
-    if isinstance(r, list):
-        return ("A",) + tuple(canon(x) for x in r)
-    if isinstance(r, dict):
-        return ("D",) + tuple((k, canon(v)) for k, v in r.items())
-    if isinstance(r, float):
-        return ("F", repr(r))
-    return (type(r).__name__, r)
-
-
-def where(exc):
-    tb = exc.__traceback__
-    name = "?"
-    while tb is not None:
-        if "pdfminer" in tb.tb_frame.f_code.co_filename:
-            name = tb.tb_frame.f_code.co_name
-        tb = tb.tb_next
-    return name
+from sim.oracle import canon, match, where  # noqa: E402
 
 
 class OddHexSer(Ser):
